@@ -1,4 +1,8 @@
 mod term;
+mod c16;
+mod c11;
+mod c42;
+mod c40;
 mod c13;
 mod c26;
 mod c14;
@@ -65,6 +69,10 @@ fn main() {
         "C14" => c14::run(seed, n, &mut out),
         "C26" => c26::run(seed, n, &mut out),
         "C13" => c13::run(seed, n, _extra.first().map(|s| s.as_str()).unwrap_or("quick"), &mut out),
+        "C40" => c40::run(seed, n, &mut out),
+        "C42" => c42::run(seed, n, &mut out),
+        "C11" => c11::run(seed, n, &mut out),
+        "C16" => c16::run(seed, n, _extra.first().map(|s| s.as_str()).unwrap_or("quick"), &mut out),
         _ => { eprintln!("unknown property {}", prop); std::process::exit(2); }
     }
 }
